@@ -62,6 +62,7 @@ class Scenario:
         self.by_addr = {}
         self.accept_q = deque()
         self.rounds = []
+        self.vary_source = False
         self.pubs = {}
         self.npub = 0
         self.crashed = False
@@ -135,7 +136,13 @@ class Scenario:
             self.npub += 1
             pid_ = PUB_BASE + self.npub
             payload = pub_payload(pid_, size)
-            hdr_kw = dict(send_time=float(pid_), recv_time=float(pid_) + 0.25, src_host=3, src_mod=cs.mod_id or 0,
+            src_host, src_mod = 3, cs.mod_id or 0
+            if self.vary_source:
+                # a relay re-publishes with the original header: the source fields are whatever the publisher wrote
+                h = (pid_ * 2246822519) & 0xFFFFFFFF
+                src_mod = [src_mod, src_mod, 0, 55, 32767, -1, 200, 1][h % 8]
+                src_host = [3, 3, 0, -1, 32767, 5][(h >> 8) % 6]
+            hdr_kw = dict(send_time=float(pid_), recv_time=float(pid_) + 0.25, src_host=src_host, src_mod=src_mod,
                           dest_host=dh, dest_mod=dm, remaining=0x1234567, is_dynamic=0x7654321,
                           reserved=(pid_ * 2654435761) & 0xFFFFFFFF)
             if self.rig.timecode:
